@@ -509,6 +509,9 @@ func genCall(r *rng, p Profile, rsShared int) Call {
 				src = gen1D(r, p)
 			}
 		}
+		if r.chance(0.4) {
+			src.Color = r.rangeIn(1, 5)
+		}
 		c = genScale(r, p, src)
 	}
 	if c.Fn != "rs" && c.Fn != "addcs" && c.Fn != "scale" && r.chance(0.35) {
@@ -631,9 +634,18 @@ func genBitHistory(r *rng, maxOps, maxBits int, id int) Call {
 	}
 	// a history has a "style": small steps, bulk growth, or mixed
 	style := r.intn(3)
+	// some histories keep TWO lists alive and alternate between them (op "switch"): whatever the
+	// implementation shares between lists (free lists, scratch blocks) must not leak from one to the other
+	twoLists := r.chance(0.2)
+	otherLen := 0
 	for i := 0; i < n; i++ {
 		if length >= maxBits {
 			style = 0
+		}
+		if twoLists && r.chance(0.15) {
+			c.Ops = append(c.Ops, BitOp{Op: "switch"})
+			length, otherLen = otherLen, length
+			continue
 		}
 		x := r.intn(100)
 		switch {
